@@ -5,6 +5,7 @@ import SpecterModel.C09.Drv
 import SpecterModel.C11.Drv
 import SpecterModel.C12.Drv
 import SpecterModel.C13.Drv
+import SpecterModel.C14.Drv
 import SpecterModel.C15.Drv
 import SpecterModel.C16.Drv
 import SpecterModel.C17.Drv
@@ -51,6 +52,7 @@ def main (args : List String) : IO UInt32 := do
   | ["C11"] => do Specter.C11.main; return 0
   | ["C12"] => do Specter.C12.main; return 0
   | ["C13"] => do Specter.C13.main; return 0
+  | ["C14"] => do Specter.C14.main; return 0
   | ["C15"] => do Specter.C15.main; return 0
   | ["C16"] => do Specter.C16.main; return 0
   | ["C17"] => do Specter.C17.main; return 0
